@@ -25,7 +25,7 @@ impl ProgProperty for C01 {
         }
     }
     fn mix(&self, _tier: Tier) -> Mix {
-        Mix { raw: 15, strukt: 55, div: 0, wide: 12, big: 3, roam: 10, deep: 5, commented: 4 }
+        Mix { raw: 15, strukt: 55, div: 0, wide: 12, big: 3, roam: 10, deep: 5, commented: 4, hibits: 4 }
     }
     fn make_cfgs(&self, sel: &Sel, _p: &str, _i: &[u8], _b: u32, _r: &RefRun) -> Vec<RunCfg> {
         let high = [4u32, 5, 17, u32::MAX][(sel.a % 4) as usize];
